@@ -156,6 +156,27 @@ pub fn byzantine_keys(b: &mut Builder, f: u8) -> Vec<(Kind, Vec<u8>, Option<bool
                     out.push((Kind::Secret, [&seed[..], &pk2].concat(), Some(false), "secret key with the public half of another key".into()));
                 }
                 out.push((Kind::Secret, [&seed[..], &[0u8; 32]].concat(), Some(false), "secret key with an all-zero public half".into()));
+                // differences that cancel under xor / sum style comparisons
+                for _ in 0..10 {
+                    let (i, j) = (b.rng.usize_below(32), b.rng.usize_below(32));
+                    if i == j {
+                        continue;
+                    }
+                    let m = *b.rng.pick(&[0x01u8, 0x10, 0x80, 0xff, 0x55]);
+                    let mut k = good.clone();
+                    k[32 + i] ^= m;
+                    k[32 + j] ^= m;
+                    out.push((Kind::Secret, k, Some(false), "secret key whose public half differs in two bytes by the same mask".into()));
+                    let mut k = good.clone();
+                    k[32 + i] = k[32 + i].wrapping_add(m);
+                    k[32 + j] = k[32 + j].wrapping_sub(m);
+                    out.push((Kind::Secret, k, Some(false), "secret key whose public half differs in two bytes by opposite amounts".into()));
+                    let mut k = good.clone();
+                    k.swap(32 + i, 32 + j);
+                    if k != good {
+                        out.push((Kind::Secret, k, Some(false), "secret key whose public half has two bytes swapped".into()));
+                    }
+                }
             }
         }
         _ => {
@@ -255,6 +276,11 @@ impl Scenario for C08 {
             "not demanded (the property does not list them): rejection of valid uncompressed/hybrid P-384 encodings, of small-order or non-canonical Ed25519 points, of RSA DER with flipped bits that still parses".into(),
         ]
     }
+    fn adopts(&self, v: &crate::world::Violation) -> bool {
+        // in these plans tokens are only delivered fault-free, under keys that went through
+        // restart / clone / another accepted encoding: a rejection means the key did not survive
+        matches!((v.property, v.class.as_str()), ("C01", "authentic-rejected" | "roundtrip-mismatch" | "seal-failed"))
+    }
     fn plan(&self, seed: u64, run: u64, _tier: Tier) -> Plan {
         let f = 1 + (run % 4) as u8;
         let nodes = family_nodes_of(f);
@@ -278,6 +304,32 @@ impl Scenario for C08 {
             let vkey = if purpose == Purp::Local { fk.local } else { fk.public };
             for node in 0..nodes.len() {
                 b.push(Step::Deliver { tok, node, key: vkey, purpose: None, faults: vec![], pk: None, fk: None, validator: VSpec::None, alias: false, now_ns: now, pair_with: None });
+            }
+        }
+        // the same public key distributed in another accepted encoding (uncompressed SEC1) must verify
+        // exactly what the compressed one verifies
+        if f == 3 {
+            let mut sc = crate::prng::Rng::new(b.ev_seed()).bytes(48);
+            sc[0] &= 0x7f;
+            if let Some(un) = crate::refimpl::p384_uncompressed_of_scalar(&sc) {
+                let (sk, pk_un, pk_c) = (b.key_slot(), b.key_slot(), b.key_slot());
+                b.push(Step::KeyFromRaw { slot: sk, family: 3, kind: Kind::Secret, bytes: Bytes::hex(&sc) });
+                b.push(Step::KeyFromRaw { slot: pk_un, family: 3, kind: Kind::Public, bytes: Bytes::hex(&un) });
+                let mut comp = vec![2 | (un[96] & 1)];
+                comp.extend_from_slice(&un[1..49]);
+                b.push(Step::KeyFromRaw { slot: pk_c, family: 3, kind: Kind::Public, bytes: Bytes::hex(&comp) });
+                let tok = b.tok_slot();
+                let rng = b.healthy_rng();
+                let signer = b.rng.usize_below(nodes.len());
+                b.push(Step::Seal { tok, node: signer, key: sk, purpose: Purp::Public, claims: ClaimsSpec::Raw { bytes: Bytes::hex(b"alt-encoding") }, footer: FootSpec::Unit, aad: Bytes::empty(), nonce: None, alias: false, rng, now_ns: now });
+                for node in 0..nodes.len() {
+                    for key in [pk_un, pk_c] {
+                        b.push(Step::Deliver { tok, node, key, purpose: None, faults: vec![], pk: None, fk: None, validator: VSpec::None, alias: false, now_ns: now, pair_with: None });
+                    }
+                    b.push(Step::KeyCheck { node, slot: pk_un });
+                    b.push(Step::Id { node, slot: pk_un });
+                    b.push(Step::Id { node, slot: pk_c });
+                }
             }
         }
         // Byzantine key distribution
@@ -649,6 +701,10 @@ impl Scenario for C09 {
     fn rule(&self) -> String {
         "run i = (backend, artifact kind): a valid instance (three instances with tail lengths 0,1,2 mod 3 where the type allows any length) travels through re-encoding channels: fault enumeration on the final base64 block (every position x every ASCII character plus 20 multi-byte samples), character replacement at random earlier positions, '=' padding (1,2), standard alphabet, every non-zero trailing-bit pattern, whitespace/control insertion at start, after the header, mid, end, extra segments, upper-cased header, trailing '.', lengths = 1 mod 4; oracle: parse Ok => to_string() equals the delivered string (tokens: up to one trailing '.' with empty footer) and any change of the string that the parser accepts is a *different value*; own serialisations are always accepted; serde form is exactly the quoted Display string and rejects non-strings; byte strings of every length 0..300 encode (library) and decode (independent codec) back. distinct = (parser, artifact, fault class, outcome)".into()
     }
+    fn adopts(&self, v: &crate::world::Violation) -> bool {
+        // encode (library) / decode (independent codec) of byte strings travels as token segments here
+        matches!((v.property, v.class.as_str()), ("C01", "authentic-rejected" | "roundtrip-mismatch" | "wrong-header-or-footer" | "wrong-token-length"))
+    }
     fn extra_coverage(&self, _s: &crate::world::Stats) -> std::collections::BTreeMap<String, serde_json::Value> {
         let mut m = std::collections::BTreeMap::new();
         m.insert("exhaustive".into(), serde_json::json!(false));
@@ -678,8 +734,11 @@ impl Scenario for C09 {
                     b.push(Step::Seal { tok, node: 0, key, purpose, claims, footer, aad: Bytes::empty(), nonce: None, alias: false, rng, now_ns: now });
                     texts.push(TextRef::Tok { slot: tok });
                 }
+                // segments larger than any internal buffer an encoder might use
+                let mut lens: Vec<usize> = (run as usize % 7..=300).step_by(7).collect();
+                lens.extend([1023, 1024, 1025, 4095, 4096, 4097, 4098, 5000, 8191, 8192, 8193, 12289, 65535, 65536, 65537]);
                 // encode/decode of every byte-string length 0..300 through the footer segment
-                for l in (run as usize % 7..=300).step_by(7) {
+                for l in lens {
                     let tok = b.tok_slot();
                     let claims = ClaimsSpec::Raw { bytes: b.bytes(l) };
                     let rng = b.healthy_rng();
